@@ -276,6 +276,75 @@ def linebreak_vocabulary(fns, what, bad):
     return n
 
 
+STR_ONLY_METHODS = {'count', 'find', 'rfind', 'index', 'rindex', 'split', 'rsplit', 'partition', 'rpartition',
+                    'startswith', 'endswith', 'replace', 'strip', 'lstrip', 'rstrip', 'join', 'splitlines',
+                    'removeprefix', 'removesuffix'}
+
+
+def bytes_safety(fns, what, bad):
+    """The text may be `str` or `bytes`.  On every path of the driver and of the functions that build
+    positions and messages, an operation that mixes the text (or a slice of it) with a `str`
+    constant - a method call with a str argument, `'x' in text`, concatenation, %-formatting - is
+    only reached after a test that the text is not bytes: otherwise bytes input ends in TypeError
+    instead of ParseError / PartialParseError.  (Comparing an element with a str constant is
+    harmless.)  -> number of sites examined"""
+    n = 0
+    for name in POSITION_FUNCTIONS + ('_run',):
+        fn = fns.get(name)
+        if fn is None or not fn.args.args:
+            continue
+        tparam = next((a.arg for a in fn.args.args if a.arg in ('text', '_text')), None)
+        if tparam is None:
+            continue
+        T = ('PARAM', tparam)
+
+        def texty(t):
+            return t == T or (isinstance(t, tuple) and t[:1] == ('SUB',) and t[1] == T
+                              and isinstance(t[2], tuple) and t[2][:1] == ('SLICE',))
+
+        def is_strc(t):
+            if isinstance(t, tuple) and t[:1] == ('CONST',):
+                try:
+                    return isinstance(ast.literal_eval(t[1]), str)
+                except Exception:
+                    return False
+            return False
+        for p in P.Enumerator().function(fn):
+            guarded = False
+            steps = list(p.steps)
+            for s in steps:
+                if s[0] == 'T':
+                    t = s[1]
+                    if isinstance(t, tuple) and t[:2] == ('CALL', ('VAR', 'isinstance')) and len(t) == 4 and t[2] == T:
+                        ty = ast.unparse(ast.parse(P.tfmt(t[3]), mode='eval')) if False else P.tfmt(t[3])
+                        if ('bytes' in ty and not s[2]) or (ty == 'str' and s[2]):
+                            guarded = True
+                terms = [s[3]] if s[0] == 'E' and isinstance(s[3], tuple) else [s[1]] if s[0] in ('X', 'T', 'Y') else []
+                if p.end and s is steps[-1] and len(p.end) > 1 and isinstance(p.end[1], tuple):
+                    terms.append(p.end[1])
+                for term in terms:
+                    for x in P.subterms(term):
+                        if not isinstance(x, tuple):
+                            continue
+                        mixed = None
+                        if x[:1] == ('CALL',) and isinstance(x[1], tuple) and x[1][:1] == ('ATTR',) and texty(x[1][1]) \
+                                and x[1][2] in STR_ONLY_METHODS and any(is_strc(a) for a in x[2:]):
+                            mixed = f'{tparam}.{x[1][2]}(<str>)'
+                        elif x[:1] == ('CMP',) and x[1] in (('In',), ('NotIn',)) and is_strc(x[2]) and texty(x[3]):
+                            mixed = f'<str> in {tparam}'
+                        elif x[:2] in (('OP', 'Add'),) and ((texty(x[2]) and is_strc(x[3])) or (is_strc(x[2]) and texty(x[3]))):
+                            mixed = f'{tparam} + <str>'
+                        if mixed:
+                            n += 1
+                            if not guarded:
+                                bad('BYTES-safe', f'{what}: {name} evaluates {mixed} ({P.tfmt(x)[:70]}) on a path that '
+                                                  f'has not established that the text is not bytes: for bytes input '
+                                                  f'this raises TypeError where ParseError / PartialParseError is due')
+            if p.end and len(p.end) > 1 and isinstance(p.end[1], tuple) and not steps:
+                pass
+    return n
+
+
 def linecol_rules(fns, what, bad):
     """C09 b: the per-index tables: from (1, 0); a line break stores (line+1, 0), any other character
     stores (line, col+1); one entry per character in each table; the line table is returned first."""
@@ -430,6 +499,21 @@ def finalize_rules(fns, what, bad):
                                     f'whole text: spans recorded during lookahead may end after `pos`, and every '
                                     f'index up to len(text) must be convertible')
     if len(tables) < 2:
+        # tables taken from a store that outlives the call (a module-level cache) are not a function of
+        # this call's text: whatever the key, another text can be served the tables of an earlier one
+        local = {a.arg for a in fn.args.args} | {n.id for n in ast.walk(fn) if isinstance(n, ast.Name)
+                                                 and isinstance(n.ctx, ast.Store)}
+        for p in paths:
+            for e in p.events('assign'):
+                v = e[3]
+                src = v[1] if isinstance(v, tuple) and v[0] == 'UNPACK' else v
+                if isinstance(src, tuple) and src[0] == 'SUB' and isinstance(src[1], tuple) and src[1][0] == 'VAR' \
+                        and src[1][1] not in local:
+                    bad('TABLE-per-call', f'{what}: _finalize_parse_info takes its position tables from the '
+                                            f'module-level store `{src[1][1]}` ({P.tfmt(src)[:60]}) instead of computing '
+                                            f'them from the text of this call: a later text can be given the lines '
+                                            f'and columns of an earlier one')
+                    return nob + 1
         raise AnalysisError(f'{what}: _finalize_parse_info does not unpack the two position tables')
     tvals = set(tables.values())
     # exits
